@@ -328,6 +328,8 @@ func (fg *FnGen) applyContract(con *Contract, name string, names []string, args 
 	}
 	if con.Trusted != "" {
 		fg.note("assumed contract: " + con.PkgPath + "::" + con.Key + " (" + con.Trusted + ")")
+	} else if !strings.HasPrefix(con.PkgPath, "github.com/wundergraph/graphql-go-tools") {
+		fg.note("assumed contract of code outside the repository (specs/*.spec, never proved): " + con.PkgPath + "::" + con.Key)
 	}
 	for _, cbName := range con.Callbacks {
 		fg.applyCallback(vars[cbName], name, pos)
